@@ -748,6 +748,29 @@ pub fn exec<S: MdkStorageProvider>(s: &S, t: &[&str]) -> String {
     }
 }
 
+/// profile `lru`: a `save_message` that pushed a message out of its group's map (per-group cap) answers
+/// `ok ev:<id>` — the victim among several oldest messages is the map's choice, observed here by listing the
+/// group before and after (both listings only `peek`)
+pub fn exec_lru<S: MdkStorageProvider>(s: &S, t: &[&str]) -> String {
+    if t[0] != "save_message" {
+        return exec(s, t);
+    }
+    let gid = mk_gid(u(t[2]));
+    let ids = |s: &S| -> Vec<(u64, u64)> {
+        s.messages(&gid, Some(Pagination::new(Some(10000), Some(0)))).map(|l| l.iter().map(|m| (eid_num(&m.id), m.created_at.as_secs())).collect()).unwrap_or_default()
+    };
+    let before = ids(s);
+    let r = exec(s, t);
+    let after = ids(s);
+    let oldest = before.iter().map(|x| x.1).min().unwrap_or(0);
+    let gone: Vec<(u64, u64)> = before.into_iter().filter(|i| !after.iter().any(|a| a.0 == i.0)).collect();
+    match gone.first() {
+        // oracle on the implementation alone: the victim of the per-group cap must be one of the oldest messages
+        Some((v, c)) if r == "ok" => format!("ok ev:{v}{}", if *c == oldest && gone.len() == 1 { "" } else { "!not-the-oldest" }),
+        _ => r,
+    }
+}
+
 pub fn new_backend(kind: &str, file: bool) -> Be {
     match kind {
         "mem" => Be::Mem(MdkMemoryStorage::new()),
@@ -775,6 +798,7 @@ pub fn main(args: &[String]) -> i32 {
     let out = io::stdout();
     let mut out = io::BufWriter::new(out.lock());
     let mut be = new_backend("mem", false);
+    let mut lru = false;
     for line in stdin.lock().lines() {
         let line = line.unwrap();
         let t: Vec<&str> = line.split_whitespace().collect();
@@ -782,11 +806,21 @@ pub fn main(args: &[String]) -> i32 {
             continue;
         }
         if t[0] == "backend" {
-            be = new_backend(t[1], file);
+            if t[1] == "lru" {
+                // memory backend with a small cache_size / max_messages_per_group (profile `lru`, Model/MemLru.lean)
+                let limits = mdk_memory_storage::ValidationLimits::default()
+                    .with_cache_size(u(t[2]) as usize)
+                    .with_max_messages_per_group(u(t[3]) as usize);
+                be = Be::Mem(MdkMemoryStorage::with_limits(limits));
+                lru = true;
+            } else {
+                be = new_backend(t[1], file);
+                lru = false;
+            }
             writeln!(out, "ok").unwrap();
             continue;
         }
-        let r = catch_unwind(AssertUnwindSafe(|| with!(&be, |s| exec(s, &t))));
+        let r = catch_unwind(AssertUnwindSafe(|| with!(&be, |s| if lru { exec_lru(s, &t) } else { exec(s, &t) })));
         match r {
             Ok(s) => writeln!(out, "{s}").unwrap(),
             Err(_) => writeln!(out, "panic").unwrap(),
